@@ -177,7 +177,7 @@ PROPS = {
             "props": ["C08"], "modes": ["db", "hist"], "level": "proof", "nontrivial": {"db": _db_nontrivial, "hist": _hist_nontrivial},
             "rule": DB_RULE + " || second clause (neutral manifest edits never cause a re-run): " + HIST_RULE,
             "assumptions": DB_ASSUME + HIST_ASSUME, "trusted_base": DB_TB + HIST_TB,
-            "monitors": ["attributionOk", "survivorsExact", "runSetAsPredicted", "logAgrees"]},
+            "monitors": ["attributionOk", "survivorsExact", "runSetAsPredicted", "logAgrees", "writtenReadsBack"]},
     "C01": _sched("Lean 4 theorems about the scheduler model: the readiness gate admits a build only when every producer of an ordering input is Done; everything ready_dependents promotes passed it; the gating invariant is preserved by every state transition; validation edges do not enter readiness; the want phase never resets a queued/running/finished build (joint induction over the mutually recursive want functions, covering re-entrancy). The model is tied to the real Work/Runner by exact equality of full transition traces on random graphs x schedules, and the monitors startsAfterDeps (all transitive ordering producers Done before a start) and startsOnce are evaluated in Lean on the implementation's trace.",
                   ["C01"], ["startsAfterDeps", "startsOnce", "traceSpec"]),
     "C04": _sched("Lean 4 theorems: pop_queued only hands out builds from a pool with room; the start loop never exceeds -j; per-pool running counters equal the number of Running builds of that pool across every transition; pool names are distinct with declared pools overriding built-ins; an undeclared pool is an error at enqueue time. Tied to the real scheduler by trace equality; monitor withinLimits (running set <= -j and <= depth per pool at every start) evaluated on the implementation's trace.",
@@ -298,12 +298,15 @@ PROPS["C15"]["claim"] += (" The byte-level parser is TOTAL for every byte string
 
 PROPS["C06"]["claim"] += (" TERMINATION of Work::run (run_loops_terminate, Lemmas/SchedTerm): in both phases the loops never end because the "
     "model's fuel ran out; each continuing round moves a build forward (measure = sum of state codes, at most 6 per build), each start "
-    "and each ready-loop round consumes a build of a finite stock. The want phase's recursion bound is not covered. A REPORTED "
+    "and each ready-loop round consumes a build of a finite stock. THE WANT PHASE TERMINATES TOO (want_phase_terminates, Lemmas/SchedWantTerm): "
+    "want_file/want_build with re-entrant visits through validation edges and input lists of any length never run out of wantFuel = "
+    "(longest input list+3)(#builds+1)(#files+1)+2 on any graph whose references are in range (true of every loaded graph: "
+    "want_phase_terminates_loaded); measure (#Unknown builds)(F+1) + #files off the cycle stack. A REPORTED "
     "DEPENDENCY CYCLE IS REAL (cycle_diagnostic_sound): the named files form a cycle of ordering edges returning to the first; "
     "validation edges start a fresh stack.")
 
 PROPS["C19"]["monitors"] = PROPS["C19"]["monitors"] + ["totalIsSum"]
-PROPS["C09"]["monitors"] = PROPS["C09"]["monitors"] + ["notesHidden"]
+PROPS["C09"]["monitors"] = PROPS["C09"]["monitors"] + ["notesHidden", "checkErrorsAsPredicted"]
 
 PROPS["C14"]["monitors"] = PROPS["C14"]["monitors"] + ["oneNodePerLocation"]
 PROPS["C13"]["modes"] = PROPS["C13"]["modes"] + ["load"]
